@@ -9,6 +9,10 @@ use std::io::{Read, Write};
 pub enum Step {
     /// `Engine::compile_and_run_raw_program(src)`
     Eval { src: String },
+    /// `Engine::compile_and_run_raw_program_with_path(src, path)`: how the `steel` binary runs a
+    /// file.  This entry point compiles calls of non-shadowed builtins to specialised opcodes,
+    /// the path-less one (REPL, `Engine::run`) does not.
+    EvalPath { src: String, path: String },
     /// `Engine::register_steel_module(name, src)`
     Module { name: String, src: String },
     /// set the gc-stress period (0 = off): full collection at every n-th allocation
